@@ -1026,7 +1026,12 @@ class TreeTransform(Generic[TreeFnT]):
       output_keys: TreeMapKeys | None = None,
       batch_size: int = 0,
   ) -> TreeTransform:
-    output_keys = output_keys or input_keys
+    # Index(0) and 0 are falsy, yet valid keys: only None and an empty tuple of
+    # keys mean "same as the input keys".
+    if output_keys is None or (
+        isinstance(output_keys, (tuple, list)) and not output_keys
+    ):
+      output_keys = input_keys
     fn = tree_fns.Select(
         input_keys=input_keys, output_keys=output_keys, batch_size=batch_size
     )
